@@ -1,0 +1,56 @@
+//go:build verif
+
+package bloomsearch
+
+// Verification hooks, compiled only with the verif build tag. verifPoint marks
+// schedule points between the engine's critical sections; verifFS reports
+// filesystem mutations of FileSystemDataStore. Handlers run synchronously on
+// the calling goroutine; with none installed a hook is one atomic load.
+
+import "sync/atomic"
+
+var (
+	verifPointHandler atomic.Pointer[func(name string)]
+	verifFSHandler    atomic.Pointer[func(op, a, b string)]
+)
+
+func verifPoint(name string) {
+	if h := verifPointHandler.Load(); h != nil {
+		(*h)(name)
+	}
+}
+
+func verifFS(op, a, b string) {
+	if h := verifFSHandler.Load(); h != nil {
+		(*h)(op, a, b)
+	}
+}
+
+// VerifSetPointHook installs (or with nil removes) the schedule point handler.
+func VerifSetPointHook(fn func(name string)) {
+	if fn == nil {
+		verifPointHandler.Store(nil)
+		return
+	}
+	verifPointHandler.Store(&fn)
+}
+
+// VerifSetFSHook installs (or with nil removes) the filesystem mutation handler.
+func VerifSetFSHook(fn func(op, a, b string)) {
+	if fn == nil {
+		verifFSHandler.Store(nil)
+		return
+	}
+	verifFSHandler.Store(&fn)
+}
+
+// VerifQuerySlotsInUse reports how many global query-semaphore slots are held.
+func (b *BloomSearchEngine) VerifQuerySlotsInUse() int {
+	return len(b.querySemaphore)
+}
+
+// VerifSetFileNameDraw overrides the base-name draw of CreateFile (to force
+// name collisions).
+func (fs *FileSystemDataStore) VerifSetFileNameDraw(fn func() string) {
+	fs.drawFileName = fn
+}
